@@ -88,10 +88,16 @@ func VerifC10_Queue() { verifC10(2) }
 // waiter is parked, so the arrival/release races of the single-waiter harnesses - known findings -
 // are excluded by construction).  Waiter 0's context is cancelled by the environment at any moment
 // or never (cancelFirst); timers are disabled in the environment.  At quiescence:
-//   - no waiter is blocked while capacity is free (C10),
-//   - the waiter that was served is the next in line among those that had not given up (C11),
-//   - the backlog length equals the number of blocked waiters (C12), the busy count the tokens owned (C02).
-func verifQueueWaiters(n int, ordering QueueOrdering, evictDone bool, cancelFirst bool) {
+// observed (asserted by the harnesses of the respective properties):
+//   - lost: a waiter is blocked while capacity is free (C10),
+//   - inOrder: the waiter that was served is the next in line among those that had not given up (C11),
+//   - backlogIsBlocked: the backlog length equals the number of blocked waiters (C12),
+//   - busyIsServed: the strategy's busy count equals the tokens owned by waiters (C02).
+type verifQueueObs struct {
+	lost, busyIsServed, backlogIsBlocked, inOrder bool
+}
+
+func verifQueueWaiters(n int, ordering QueueOrdering, evictDone bool, cancelFirst bool) verifQueueObs {
 	inner, st := verifFullLimiter()
 	lim := NewQueueBlockingLimiterFromConfig(inner, QueueLimiterConfig{Ordering: ordering, MaxBacklogSize: 10, MaxBacklogTimeout: time.Hour, BacklogEvictDoneCtx: evictDone})
 	held, ok := lim.Acquire(context.Background())
@@ -123,9 +129,6 @@ func verifQueueWaiters(n int, ordering QueueOrdering, evictDone bool, cancelFirs
 	}
 	lost := verif.And(nBlocked > 0, busy < 1)
 	verif.Class("waiter_blocked_with_capacity_free", lost)
-	verif.Assert("no-lost-handoff", verif.Not(lost))
-	verif.Assert("busy-is-tokens-owned", busy == nServed)
-	verif.Assert("backlog-is-blocked-callers", int(lim.backlog.len()) == nBlocked)
 	// order: a served waiter has no still-blocked waiter ahead of it
 	inOrder := true
 	for i := 0; i < n; i++ {
@@ -139,8 +142,7 @@ func verifQueueWaiters(n int, ordering QueueOrdering, evictDone bool, cancelFirs
 			}
 		}
 	}
-	verif.Assert("served-in-configured-order", inOrder)
-	verif.Reach("end")
+	return verifQueueObs{lost: lost, busyIsServed: busy == nServed, backlogIsBlocked: int(lim.backlog.len()) == nBlocked, inOrder: inOrder}
 }
 
 // VerifC10_Queue_TwoParked: two parked waiters (FIFO and LIFO), the first one's context cancelled at
@@ -149,5 +151,9 @@ func verifQueueWaiters(n int, ordering QueueOrdering, evictDone bool, cancelFirs
 //verif:harness property=C10 theory=bv tier=quick timers=off unwind=3 unwindcut=1 clock=frozen
 func VerifC10_Queue_TwoParked() {
 	ord := []QueueOrdering{OrderingFIFO, OrderingLIFO}[verif.Choice("ordering", 2)]
-	verifQueueWaiters(2, ord, false, true)
+	o := verifQueueWaiters(2, ord, false, true)
+	verif.Assert("no-lost-handoff", verif.Not(o.lost))
+	verif.Assert("two-parked-busy-is-tokens-owned", o.busyIsServed)
+	verif.Assert("two-parked-served-in-configured-order", o.inOrder)
+	verif.Reach("end")
 }
